@@ -28,6 +28,12 @@ def enabled(tree, meta):
             out.append((c("", ["xxh64"], sf=["d"]), m2, True))
     if g >= 1 and meta["edits"] < meta["max_edits"] and g < mg:
         m3 = dict(meta, edits=meta["edits"] + 1)
+        if meta.get("retype"):
+            # a recorded path changes its kind: the folder d becomes a file, the file a.txt a folder (and back)
+            for f in ("a.txt", "d"):
+                if f in med:
+                    out.append((["retype", f], m3, True))
+            return out
         for f in ("a.txt", "d/b.txt"):
             if f in med:
                 out.append((["write", f, ALT[f] if med[f] == T[f] else T[f]], m3, True))
@@ -196,6 +202,8 @@ def main(tier, seed):
                                                       list(ref.FORMATS_CLI)])]
     # a history with a user pattern and an ignored, never recorded file on disk; flatten plain, with -i, with -ii, with both
     plans.append(dict(max_cmds=2, max_edits=1, fsets=[["xxh64"], ["md5"]], pats=["*.tmp"], flatten_opts=("i", "ii", "i+ii")))
+    # paths that change their kind (file <-> folder) between generations: records are judged by their own kind
+    plans.append(dict(max_cmds=3, max_edits=2 if tier == "thorough" else 1, fsets=[["xxh64"], ["md5"]], retype=True))
     tot = {"states": 0, "transitions": 0}
     runs = []
     for pl in plans:
